@@ -217,10 +217,9 @@ func vh_crash_vote() {
 	n := 1 + vChoose("n", 0, vTier())
 	r, env := vNewRaft("a", vRaftOpts{n: n, w: w, shaped: true})
 	env.stable.absentErr = vTier() > 0 && vChoose("absentErr", 0, 1) == 1
-	if vTier() == 0 {
-		// quick tier: one log shape (the vote record does not depend on it): empty log on a snapshot
-		vAssume(env.logs.high == 0 && r.lastSnapshotIndex == vBase()+1)
-	}
+	// one log shape in both tiers (the vote record does not depend on it): empty log on a snapshot.
+	// All W=1 shapes did not finish in 80 minutes on 4 workers (> 230 000 paths), so they are not registered.
+	vAssume(env.logs.high == 0 && r.lastSnapshotIndex == vBase()+1)
 	g := &vVoteGhost{term: vU64("g.term"), cand: vBlob("g.cand")}
 	vAssume(vInvBasic(r, env))
 	vAssume(vInvLog(r, env, w))
